@@ -70,6 +70,8 @@ impl<T> Object<T> {
     pub fn take(mut this: Self) -> T {
         if let Some(pool) = this.pool.upgrade() {
             let _ = pool.size.fetch_sub(1, Ordering::Relaxed);
+            #[cfg(deadpool_verif)]
+            crate::verif::point("utake.size_dec");
             pool.size_semaphore.add_permits(1);
         }
         this.obj.take().unwrap()
@@ -84,8 +86,14 @@ impl<T> Drop for Object<T> {
                     let mut queue = pool.queue.lock().unwrap();
                     queue.push(obj);
                 }
+                #[cfg(deadpool_verif)]
+                crate::verif::point("udrop.pushed");
                 let _ = pool.available.fetch_add(1, Ordering::Relaxed);
+                #[cfg(deadpool_verif)]
+                crate::verif::point("udrop.avail");
                 pool.semaphore.add_permits(1);
+                #[cfg(deadpool_verif)]
+                crate::verif::point("udrop.permit");
                 pool.clean_up();
             }
         }
@@ -193,10 +201,14 @@ impl<T> Pool<T> {
             TryAcquireError::NoPermits => PoolError::Timeout,
             TryAcquireError::Closed => PoolError::Closed,
         })?;
+        #[cfg(deadpool_verif)]
+        crate::verif::point("uget.permit");
         let obj = {
             let mut queue = inner.queue.lock().unwrap();
             queue.pop().unwrap()
         };
+        #[cfg(deadpool_verif)]
+        crate::verif::point("uget.popped");
         permit.forget();
         let _ = inner.available.fetch_sub(1, Ordering::Relaxed);
         Ok(Object {
@@ -232,10 +244,14 @@ impl<T> Pool<T> {
                 .map_err(|_| PoolError::Closed),
             (Some(_), None) => Err(PoolError::NoRuntimeSpecified),
         }?;
+        #[cfg(deadpool_verif)]
+        crate::verif::point("uget.permit");
         let obj = {
             let mut queue = inner.queue.lock().unwrap();
             queue.pop().unwrap()
         };
+        #[cfg(deadpool_verif)]
+        crate::verif::point("uget.popped");
         permit.forget();
         let _ = inner.available.fetch_sub(1, Ordering::Relaxed);
         Ok(Object {
@@ -291,12 +307,20 @@ impl<T> Pool<T> {
     /// `max_size`. In the methods `add` and `try_add` this is ensured by using
     /// the `size_semaphore`.
     fn _add(&self, object: T) {
+        #[cfg(deadpool_verif)]
+        crate::verif::point("uadd.slot");
         let _ = self.inner.size.fetch_add(1, Ordering::Relaxed);
+        #[cfg(deadpool_verif)]
+        crate::verif::point("uadd.size");
         {
             let mut queue = self.inner.queue.lock().unwrap();
             queue.push(object);
         }
+        #[cfg(deadpool_verif)]
+        crate::verif::point("uadd.pushed");
         let _ = self.inner.available.fetch_add(1, Ordering::Relaxed);
+        #[cfg(deadpool_verif)]
+        crate::verif::point("uadd.avail");
         self.inner.semaphore.add_permits(1);
     }
 
@@ -322,13 +346,33 @@ impl<T> Pool<T> {
     /// [`PoolError::Closed`] immediately.
     pub fn close(&self) {
         self.inner.semaphore.close();
+        #[cfg(deadpool_verif)]
+        crate::verif::point("uclose.sem");
         self.inner.size_semaphore.close();
+        #[cfg(deadpool_verif)]
+        crate::verif::point("uclose.size_sem");
         self.inner.clear();
     }
 
     /// Indicates whether this [`Pool`] has been closed.
     pub fn is_closed(&self) -> bool {
         self.inner.is_closed()
+    }
+
+    /// Read-only snapshot of the internal state (verification builds only).
+    #[cfg(deadpool_verif)]
+    #[allow(missing_docs)]
+    pub fn verif_snapshot(&self) -> crate::verif::UnmanagedSnapshot {
+        let queue = self.inner.queue.lock().unwrap();
+        crate::verif::UnmanagedSnapshot {
+            permits: self.inner.semaphore.available_permits(),
+            size_permits: self.inner.size_semaphore.available_permits(),
+            closed: self.inner.semaphore.is_closed(),
+            size: self.inner.size.load(Ordering::Relaxed),
+            available: self.inner.available.load(Ordering::Relaxed),
+            queue: queue.len(),
+            max_size: self.inner.config.max_size,
+        }
     }
 
     /// Retrieves [`Status`] of this [`Pool`].
